@@ -1,6 +1,10 @@
 pub mod core;
 pub mod gen;
+pub mod graphgen;
 pub mod hv;
+pub mod mpcx;
 pub mod util;
+pub mod walk;
 
+pub mod c01;
 pub mod c13;
